@@ -54,6 +54,8 @@ struct Case {
     /// expected rejection class, if any
     reject: Option<&'static str>,
     vars: Vec<(u64, i64, i64)>,
+    /// a semi-integer variable: its domain is {0} in addition to the integers of its bound
+    semi: Option<u64>,
 }
 
 fn gen_case(rng: &mut Rng) -> Case {
@@ -75,7 +77,13 @@ fn gen_case(rng: &mut Rng) -> Case {
             (KIND_INTEGER, l, u)
         };
         let kind = if scenario == 2 && i == 0 { *rng.pick(&[KIND_CONTINUOUS, KIND_CONTINUOUS, KIND_SEMI_CONTINUOUS]) } else { kind };
+        // scenario 11: a semi-integer variable with bound [l, u], l >= 1 (domain {0} u {l..u})
+        let (kind, l, u) = if scenario == 11 && i == 0 { let l = rng.range(1, 3); (KIND_SEMI_INTEGER, l, rng.range(l, 4)) } else { (kind, l, u) };
         let b = if kind == KIND_BINARY && rng.bool() { None } else { Some((l as f64, u as f64)) };
+        // scenario 10: the first variable has no upper end; with a negative coefficient (below) the
+        // inequality is unbounded below and no finite slack range exists
+        let b = if scenario == 10 && i == 0 { if rng.bool() { Some((l as f64, f64::INFINITY)) } else { None } } else { b };
+        let kind = if scenario == 10 && i == 0 { KIND_INTEGER } else { kind };
         inst.decision_variables.push(dvar(*id, kind, b));
         vars.push((*id, l, u));
     }
@@ -95,9 +103,15 @@ fn gen_case(rng: &mut Rng) -> Case {
         lin.push((used[0], rational_coef(rng, family)));
     }
     let constant = if rng.chance(3, 4) { rational_const(rng, family) } else { 0.0 };
+    // scenario 10: large enough that the inequality can be violated (otherwise it is relaxed as always satisfied)
+    let constant = if scenario == 10 { 60.0 } else { constant };
+    if (scenario == 10 || scenario == 11) && nv > 0 {
+        lin.retain(|(i, _)| *i != used[0]);
+        lin.push((used[0], if scenario == 10 { -rational_coef(rng, family).abs() } else { rational_coef(rng, family) }));
+    }
     let f = if nv == 0 {
         f_const(constant)
-    } else if scenario == 2 {
+    } else if scenario == 2 || scenario == 10 {
         f_linear(linear(lin, constant))
     } else if rng.chance(1, 3) {
         let mut entries = vec![];
@@ -153,9 +167,11 @@ fn gen_case(rng: &mut Rng) -> Case {
         0 => (cid + 777, Some("unknown-constraint-id")),
         1 => (cid, Some("not-an-inequality")),
         2 => (cid, Some("continuous-variable")),
+        10 if nv > 0 => (cid, Some("unbounded-slack-range")),
         _ => (cid, None),
     };
-    Case { inst, cid: ask, reject, vars }
+    let semi = if scenario == 11 && nv > 0 { Some(used[0]) } else { None };
+    Case { inst, cid: ask, reject, vars, semi }
 }
 
 fn classify(e: anyhow::Error) -> Outcome {
@@ -169,12 +185,16 @@ fn classify(e: anyhow::Error) -> Outcome {
 }
 
 /// all lattice points of the box
-fn lattice(vars: &[(u64, i64, i64)]) -> Vec<BTreeMap<u64, Q>> {
+fn lattice(vars: &[(u64, i64, i64)], semi: Option<u64>) -> Vec<BTreeMap<u64, Q>> {
     let mut pts: Vec<BTreeMap<u64, Q>> = vec![BTreeMap::new()];
     for (id, l, u) in vars {
         let mut next = vec![];
+        let mut values: Vec<i64> = (*l..=*u).collect();
+        if semi == Some(*id) && !values.contains(&0) {
+            values.push(0);
+        }
         for p in &pts {
-            for v in *l..=*u {
+            for v in values.iter().cloned() {
                 let mut q = p.clone();
                 q.insert(*id, qi(v));
                 next.push(q);
@@ -209,7 +229,7 @@ impl Property for C13 {
         }
     }
     fn rule(&self) -> &'static str {
-        "each case: an instance with 1-3 integer/binary variables (one in 25 without any variable and a constant inequality) with integer boxes inside [-4,4] (ids small or sparse), an inequality f(x)<=0 of degree <= 2 whose coefficients are integers or p/q from one denominator family (lcm <= 42), a second untouched constraint and in half the cases 1-4 more with ids on both sides of the target, the list stored ascending, descending or shuffled, one case in eight after a relax->restore history; even cases call convert_inequality_to_equality_with_integer_slack(id, max) (max huge, or 0..3 in one of six cases), odd cases add_integer_slack_to_inequality(id, ub in 1..6); one case in four is a rejection scenario (unknown constraint id, an equality constraint, a continuous or semi-continuous variable used). Every lattice point of the box is enumerated: f(x)<=0 (SDK rule: < 1e-6) must hold iff some integer slack value in the introduced bound satisfies the new constraint (exact rational evaluation of the new constraint at the lattice point as a polynomial in the slack alone: for degree <= 1 only the slack values around its root and the ends of the slack bound can qualify, otherwise every slack value is tried; the new variable is recognised by its fresh id, nothing else about its position or the shape of the new function is assumed). Relaxed => every point satisfies it; InfeasibleDetected => no point does; rejections leave the instance equal. Non-trivial = a non-constant inequality; distinct = fingerprint of (instance, method, argument)."
+        "each case: an instance with 1-3 integer/binary variables (one in 25 without any variable and a constant inequality) with integer boxes inside [-4,4] (ids small or sparse), an inequality f(x)<=0 of degree <= 2 whose coefficients are integers or p/q from one denominator family (lcm <= 42), a second untouched constraint and in half the cases 1-4 more with ids on both sides of the target, the list stored ascending, descending or shuffled, one case in eight after a relax->restore history; even cases call convert_inequality_to_equality_with_integer_slack(id, max) (max huge, or 0..3 in one of six cases), odd cases add_integer_slack_to_inequality(id, ub in 1..6); one case in four is a rejection scenario (unknown constraint id, an equality constraint, a continuous or semi-continuous variable used, an inequality that is unbounded below because a variable has no upper end - also with the limit u64::MAX); one case in twelve has a semi-integer variable (domain {0} and the integers of its bound): it may be refused, and if it is accepted the feasible set over that domain must be preserved. Every lattice point of the box is enumerated: f(x)<=0 (SDK rule: < 1e-6) must hold iff some integer slack value in the introduced bound satisfies the new constraint (exact rational evaluation of the new constraint at the lattice point as a polynomial in the slack alone: for degree <= 1 only the slack values around its root and the ends of the slack bound can qualify, otherwise every slack value is tried; the new variable is recognised by its fresh id, nothing else about its position or the shape of the new function is assumed). Relaxed => every point satisfies it; InfeasibleDetected => no point does; rejections leave the instance equal. Non-trivial = a non-constant inequality; distinct = fingerprint of (instance, method, argument)."
     }
     fn assumptions(&self) -> Vec<&'static str> {
         vec![
@@ -246,6 +266,20 @@ impl Property for C13 {
         } else {
             1 + rng.below(6)
         };
+        let mut arg = arg;
+        if case.reject == Some("unbounded-slack-range") {
+            if !convert {
+                // adding a slack of a given size to an inequality that is unbounded below is outside the statement
+                mon.facet("unbounded-inequality/add_slack:not-judged");
+                return;
+            }
+            if rng.bool() {
+                arg = u64::MAX; // "no limit": an infinite range is still above it
+            }
+        }
+        if case.semi.is_some() {
+            mon.facet("semi-integer-variable");
+        }
         let before = case.inst.clone();
         let target = before.constraints.iter().find(|c| c.id == case.cid);
         let f = target.and_then(|c| c.function.clone()).unwrap_or_default();
@@ -290,7 +324,7 @@ impl Property for C13 {
             }
             return;
         }
-        let pts = lattice(&case.vars);
+        let pts = lattice(&case.vars, case.semi);
         let values: Vec<(usize, Q)> = pts.iter().enumerate().map(|(i, p)| (i, fpoly.eval(p).expect("box covers all ids"))).collect();
         let feasible: Vec<bool> = values.iter().map(|(_, v)| holds_le(v)).collect();
         let n_feasible = feasible.iter().filter(|b| **b).count();
@@ -304,7 +338,11 @@ impl Property for C13 {
                 // slack range exceeds it; the estimate is the SDK's own, so such refusals are only required
                 // to leave the instance unchanged (the wording of the error is not relied upon)
                 let _ = e;
-                if small_max {
+                if case.semi.is_some() {
+                    // a semi-integer variable (domain {0} u [l,u]) may be refused like a continuous one; if it
+                    // is accepted, the feasible set over that domain must be preserved (checked below)
+                    mon.facet("semi-integer-variable/rejected");
+                } else if small_max {
                     mon.facet("convert/range-above-limit-rejected");
                 } else {
                     mon.violation(format!("C13.rejected-valid-inequality:{method}"), ctx(&after, &out));
